@@ -188,6 +188,10 @@ func GenGenesis(t *rapid.T, p *Profile) lab.GenesisCfg {
 			Denom:   "nund",
 			StartID: pick(t, []uint64{1, 1, 7, 1 << 32, 253, 254, 255, 65534, 65535, 1<<32 - 2}, tag+"Start"),
 		}
+		if oneIn(t, 14, tag+"HugeFee") {
+			// legal but enormous per-slot fee: fee x slots reaches 2^64 for a handful of slots
+			r.FeePur = pick(t, hugeFees, tag+"HugeFeeV")
+		}
 		if p.TinyLimits {
 			r.DefLimit = uint64(uniRange(t, 1, 4, tag+"Def"))
 			r.MaxLimit = r.DefLimit + uint64(uniRange(t, 0, 8, tag+"MaxExtra"))
@@ -287,7 +291,7 @@ func GenOp(t *rapid.T, p *Profile, kind string, nAcc int) Op {
 		if pct(t, p.PRetry, "retry") {
 			op.Ref = -5
 		}
-		rules := []int{0, 0, 0, 0, 1, 2, 3, 4, 5, 6}
+		rules := []int{0, 0, 0, 0, 1, 2, 3, 4, 5, 6, 7}
 		if len(p.SlotRules) > 0 {
 			rules = p.SlotRules
 		}
@@ -351,6 +355,9 @@ func strRule(t *rapid.T) int {
 	}
 	return uniRange(t, 0, 1727, "strRule")
 }
+
+// per-slot fees for which fee x n reaches or passes 2^64 for small n (2^62 x 4, 2^61 x 8, (2^64+2)/3 x 3, (2^63-1) x 3)
+var hugeFees = []uint64{1 << 62, 1 << 61, 6148914691236517206, 6148914691236517206, 3689348814741910324, 3074457345618258603, 2635249153387078803, 1<<63 - 1}
 
 var denomsValid = []string{"nund", "nund", "nund", "atto", "stake", "abc", "ibc/27394FB092D2ECCD56123C74F36E4C1F926001CEADA9CA97EA622B25F41E5EB2"}
 var denomsInvalid = []string{"", " ", "a", "1abc", "n und", "NUND!", "x#y"}
@@ -431,6 +438,8 @@ func GenParams(t *rapid.T, p *Profile, kind string, nAcc int) *ParamsPatch {
 			}
 		} else if !p.ValidParams && oneIn(t, 7, "hugeFee") {
 			pp.FeeRec = pick(t, []uint64{1<<63 - 1, 1 << 63, ^uint64(0)}, "hugeFeeV")
+		} else if oneIn(t, 10, "hugePur") {
+			pp.FeePur = pick(t, hugeFees, "hugePurV")
 		}
 	case ParamsStr:
 		pp.ValFee = pick(t, []string{"0", "1", "0.01", "0.5", "0.000000000000000001", "0.999999999999999999", "0.03", "0.24"}, "valFee")
